@@ -19,6 +19,9 @@ CLAIMED = {
  "C05": ("model_checking", "CrossHair/z3 symbolic execution of the real identity code under the injective-hash model: one obligation per (mutation operator, identity aspect) with symbolic values v1 != v2, plus symbolic NAME strings for sweep variables/parameters",
          "Bounded symbolic relational check: for 16 single-point mutation operators (processor, node count/order, parameter value at five nesting positions, every part of a sweep definition incl. a symbolic position in a 7-element domain) the solver shows the pre-images of semantic id, config id and the affected node's UUID/semantic id differ for all values; identical nodes get distinct UUIDs; for every variable/parameter NAME of length <= 8 a domain or expression change is visible in the node semantic id.",
          "Trusted: as C04. Open known finding: the pipeline semantic id ignores the whole sweep definition (glob C05.P1:semantic_id-unchanged:sweep:*).", "4 C05"),
+ "C06": ("model_checking", "CrossHair/z3 exploration of the scenario space (fault position x fault kind x special-value class x placement) over the real Pipeline + real JsonlTraceDriver writing real files; each leaf validated against the repository's JSON schemas",
+         "Bounded solver-enumerated fault check: per (length 1..3 [4], detail level, file/directory mode, source-first) the fault position, fault kind (7 kinds incl. construction-time failures and a BaseException abort), a special float (inf/-inf/nan/finite/none) reaching a traced parameter from context or config are symbolic; every leaf runs the real stack and asserts record bracket, one SER per started node in canonical order, shared ids, upstream = canonical edges, statuses, original exception object, file closed, and schema validity of every line. compute_upstream_map is checked symbolically against the inverse adjacency.",
+         "Values are concrete in P1 (JSON serialisation is the subject) - the solver decides the scenario selectors only, and says so. Stubs: constant clock/datetime/env pins. Open known finding: BaseException aborts leave no SER/pipeline_end.", "4 C06"),
  "C08": ("model_checking", "CrossHair/z3 symbolic execution of the real expand_run_space/_expand_entries against a reference, with list lengths, modes at three levels, select/rename choices and max_runs symbolic; counting itertools.product for the 'without materialising' clause",
          "Bounded symbolic differential check of run-space expansion: run list and order, key union, meta counts, every documented rejection (unequal lengths, duplicates within/across blocks/after rename, missing selected column) and the max-runs error iff size > max_runs with the true size, for all list contents and lengths within the bound; the work done before a max-runs rejection is bounded by a linear budget through a counting product.",
          "Trusted: CrossHair/z3 models; external sources enter as symbolic columns through a stubbed _load_source_file (file parsers outside). Open known finding: in-block product materialised before the cap.", "4 C08"),
